@@ -13,7 +13,9 @@ import (
 // syntactic position, and valueless expressions make the render fail.
 
 func genC01(t *rapid.T) gen.ProgCase {
-	g := &gen.G{T: t, P: gen.Profile{Unicode: true, HTMLChars: true, BigInts: true, Directives: true}}
+	// (a fifth of the cases also call the application's own function and directive: functions are applied
+	// by the same code, whoever registered them)
+	g := &gen.G{T: t, P: gen.Profile{Unicode: true, HTMLChars: true, BigInts: true, Directives: true, Custom: rapid.IntRange(0, 4).Draw(t, "custom") == 0}}
 	return gen.GenProgram(g, gen.ProgOpts{MaxTemplates: 2, MaxDepth: 1, MaxCmds: 4, ExprDepth: scale(3, 4), PosWeight: 40, Valueless: true})
 }
 
